@@ -89,7 +89,7 @@ fn quick_core(s: &world::RefState) -> bool {
     s.nodes.get(&(0, 0)) == Some(&0) && !s.atts.contains_key(&world::RefSlot::Node(0, 0))
 }
 
-fn eval_into(acc: &mut Acc, uni: &Uni, pre: &[Pre], ai: usize, bi: usize, d: u32) {
+fn eval_into(acc: &mut Acc, uni: &Uni, pre: &[Pre], ai: usize, bi: usize, d: u32, with_reversed: bool) {
     let a = &uni.states[ai];
     let b = &uni.states[bi];
     acc.pairs += 1;
@@ -104,7 +104,7 @@ fn eval_into(acc: &mut Acc, uni: &Uni, pre: &[Pre], ai: usize, bi: usize, d: u32
         reverse_a: false,
     };
     let mut variants: Vec<(bool, &warp_core::WarpState)> = vec![(false, &pre[ai].real)];
-    if let Some(rv) = &pre[ai].real_rev {
+    if let (Some(rv), true) = (&pre[ai].real_rev, with_reversed) {
         variants.push((true, rv));
     }
     for (reverse_a, real_a) in variants {
@@ -203,7 +203,12 @@ fn sweep(r: &Report, uni: &Uni, pre: &[Pre], sv: &SlotVecs, fam: Family) -> (Acc
                         }
                     }
                 }
-                eval_into(&mut acc, uni, pre, ai, bi, d);
+                // quick tier: the reversed-insertion build of `a` only for the near pairs
+                let with_reversed = match fam {
+                    Family::Quick(k) => d <= k,
+                    _ => true,
+                };
+                eval_into(&mut acc, uni, pre, ai, bi, d, with_reversed);
             }
             Some(acc)
         })
@@ -251,11 +256,11 @@ fn case_detail(uni: &Uni, c: &CaseId) -> Value {
             format!("VIOLATION {}", s.join(" | ")),
             match &ev.result {
                 Some(st) => match uni.u.read(st) {
-                    Ok(g) => {
-                        let root = warp_core::verif_hooks::snapshot::state_root(st, &uni.u.root_key(b));
-                        json!({"state": g.to_json(), "state_root": mc::hex(&root), "expected_state_root": mc::hex(&root_b),
-                               "state_root_differs": root != root_b})
-                    }
+                    Ok(g) => match safe_root(st, &uni.u.root_key(b)) {
+                        Ok(root) => json!({"state": g.to_json(), "state_root": mc::hex(&root), "expected_state_root": mc::hex(&root_b),
+                               "state_root_differs": root != root_b}),
+                        Err(p) => json!({"state": g.to_json(), "state_root_panics": p, "expected_state_root": mc::hex(&root_b)}),
+                    },
                     Err(e) => json!({"unreadable": e}),
                 },
                 None => Value::Null,
@@ -449,7 +454,7 @@ fn main() {
         let label = if restricted {
             r.note(
                 "quick_family:U_A0",
-                json!({"what": format!("all ordered pairs at slot distance <= {QUICK_D} over all {} states, plus all ordered pairs of the sub-universe 'n0 has type t0 and no attachment' ({} states); the thorough tier evaluates all {} ordered pairs", uni.states.len(), uni.states.iter().filter(|s| quick_core(s)).count(), uni.states.len()*uni.states.len())}),
+                json!({"what": format!("all ordered pairs at slot distance <= {QUICK_D} over all {} states (a built in both insertion orders), plus all ordered pairs of the sub-universe 'n0 has type t0 and no attachment' ({} states, canonical insertion order); the thorough tier evaluates all {} ordered pairs in both insertion orders", uni.states.len(), uni.states.iter().filter(|s| quick_core(s)).count(), uni.states.len()*uni.states.len())}),
             );
             format!("{}0:distance<={QUICK_D}+core-sub-universe", uni.name)
         } else {
